@@ -149,6 +149,9 @@ func c05Render(v reflect.Value, plan c05Plan) (*av.V, interface{}) {
 				name := fmt.Sprintf([]string{"zzUnknown%d", "this$%d", "größe%d", "未知%d", "val$x%d", "𝔲nknown%d"}[(x+k)%6], x)
 				if x <= len(promoted) {
 					name = promoted[x-1]
+				} else if pos > 0 && (x+k)%3 == 0 {
+					// the backing-field spelling of the known field just sent: a field of its own, without counterpart
+					name = strings.Repeat("_", 1+x%2) + full.Fields[plan.order[pos-1]]
 				}
 				val := c05Extra(k)
 				if k%c05ExtraKinds == c05AliasKind {
@@ -512,7 +515,11 @@ func TestC05(t *testing.T) {
 		if _, perr := zoo.Project(&nv, nil); perr != nil {
 			rt.Skip("unrepresentable")
 		}
-		exp := &zoo.SkewOld{A: nv.A, B: nv.B, C: nv.C, D: nv.D, E: nv.E, F: nv.F, G: nv.G}
+		if rapid.Bool().Draw(rt, "beyond2^63") {
+			// unsigned values of 2^63 and more travel as negative longs
+			nv.U, nv.X14, nv.V = nv.U|1<<63, nv.X14|1<<63, nv.V|1<<63
+		}
+		exp := &zoo.SkewOld{A: nv.A, B: nv.B, C: nv.C, D: nv.D, E: nv.E, F: nv.F, G: nv.G, U: nv.U, V: nv.V}
 		second := rapid.Bool().Draw(rt, "secondInstance")
 		var msg interface{} = &nv
 		if second {
